@@ -360,6 +360,10 @@ impl Position {
                 xy_xfrm = format!("{} {}", exist_xfrm, xy_xfrm);
             }
             element.set_attr("transform", &xy_xfrm);
+            if element.name == "g" {
+                // (what a group has by these names are variables for its content)
+                return;
+            }
             element.remove_attrs(&[
                 "dx", "dy", "dw", "dh", "x", "y", "x1", "y1", "x2", "y2", "cx", "cy", "rx", "ry",
                 "r", "width", "height",
